@@ -150,6 +150,25 @@ def Lateral.fwd [Add α] (c : Lateral α) (xs : List (List α)) : List (List α)
 
 end lateral
 
+/-- well-formed operation: assigned values have the parameter's shape (torch broadcasting has
+already been applied by `value * self.mask`), accumulators return a value of the parameter's
+shape, a bias has one entry per neuron -/
+def LOp.WF (n : Nat) : LOp α → Prop
+  | .setW v => Shape2 v n n
+  | .setD v => Shape2 v n n
+  | .updW f => ∀ m, Shape2 m n n → Shape2 (f m) n n
+  | .updD f => ∀ m, Shape2 m n n → Shape2 (f m) n n
+  | .setB b => b.length = n
+
+/-- SPEC: no self-connection — every diagonal entry is zero -/
+def DiagZero [Zero α] (n : Nat) (m : List (List α)) : Prop := ∀ i, i < n → mget m i i = 0
+
+/-- the invariant carried through every history of a lateral connection -/
+def LatInv [Zero α] (n : Nat) (c : Lateral α) : Prop :=
+  c.n = n ∧ Shape2 c.weight n n ∧ DiagZero n c.weight ∧
+    (∀ d, c.delay = some d → Shape2 d n n ∧ DiagZero n d) ∧
+    (∀ bv, c.bias = some bv → bv.length = n)
+
 /-- SPEC of a masked assignment: the off-diagonal entries of `v`, zero on the diagonal. -/
 def offDiag [Zero α] (n : Nat) (v : List (List α)) : List (List α) :=
   (List.range n).map fun i => (List.range n).map fun j => if i = j then 0 else mget v i j
@@ -293,6 +312,17 @@ def likeInputInt (g : Geom) (data : List (List Int)) : List (List (List (Option 
     let n := coverCount g i j
     let s := foldAt g data c i j
     if n = 0 then none else if s % (n : Int) = 0 then some (s / (n : Int)) else none
+
+/-! ## `like_synaptic` / `like_input` of the linear connections on (shape, row-major data) -/
+
+def prod (s : List Nat) : Nat := s.foldl (· * ·) 1
+
+/-- `"b ... -> b (...)"` -/
+def likeSynLinear (t : List Nat × List α) : List Nat × List α := ([t.1.headD 0, prod (t.1.drop 1)], t.2)
+
+/-- `data.view(-1, *inshape)` -/
+def likeInputLinear (inshape : List Nat) (t : List Nat × List α) : List Nat × List α :=
+  ((t.2.length / prod inshape) :: inshape, t.2)
 
 /-! ## receptive-field reshapes as index maps on row-major flat data -/
 
